@@ -99,14 +99,29 @@ def run(tier):
         return ["entry", "entry attribute", "entry dup parent", "entry @AT_name dup", "entry [child] dup", "entry @AT_name \"a\"",
                 "entry @AT_location address dup", "1 2", "[1] [1, 2]"]
     nbare = 0
-    for f in ("nullptr.o", "a1.out"):
-        fq = os.path.join(tests, f)
+    # location expressions in which an operation occurs once, twice, three times (?OP_x on a whole expression
+    # counts matches: any count but zero must mean yes)
+    sys.path.insert(0, os.path.join(common.VERIF, "gen"))
+    import dwarfgen
+    kids = []
+    fill = {0x10: [5], 0x91: [-8], 0x93: [4], 0x23: [1], 0x70: [2], 0x08: [7]}
+    for k, opc in enumerate([0x33, 0x50, 0x96, 0x9f, 0x10, 0x91, 0x93, 0x23, 0x70, 0x08, 0x12, 0x06]):
+        arg = fill.get(opc, [])
+        other = (0x31, [])                          # lit1
+        for j, ops in enumerate([[(opc, arg)], [(opc, arg), (opc, arg)], [(opc, arg), other, (opc, arg), other, (opc, arg)], [other, other]]):
+            kids.append({"id": 100 + 4 * k + j, "tag": 0x34, "children": [], "attrs": [{"name": 3, "form": "string", "value": "v%d_%d" % (k, j)},
+                                                                                       {"name": 2, "form": "exprloc", "value": ops}]})
+    repo, _, _ = dwarfgen.build({"units": [{"kind": "cu", "version": 4, "table": 0, "root": {"id": 1, "tag": 0x11, "children": kids, "attrs": []}}]}, wd, "repops")
+    for f in ("nullptr.o", "a1.out", repo):
+        fq = f if os.path.isabs(f) else os.path.join(tests, f)
         for w in bases:
+            if f == repo and not re.match(r"^(DW_)?OP_", w):
+                continue
             if w in ("=", "~"):          # != and !~ are infix operators, not words
                 continue
             for pfx in prefixes(w):
                 g = len(groups)
-                groups.append((pfx, "bare " + w, f))
+                groups.append((pfx, "bare " + w, os.path.basename(f)))
                 add(pfx, g, "P", fq)
                 add("%s ?%s" % (pfx, w), g, "pos", fq)
                 add("%s !%s" % (pfx, w), g, "neg", fq)
